@@ -46,13 +46,17 @@ def mk_sel_spec(n, edges, rng, setup=(), debug=(), tags=None, with_param=(), mc=
             "ret": ["tuple", ret], "mc": mc or rng.randint(1, 3), "is_async": False}
 
 
-def alias_of(rng, d, spec, ids, i, tags, form=None):
+def alias_of(rng, d, spec, ids, i, tags, form=None, env=None):
     """An alias for call site i in one of the accepted forms; returns (alias, set of sites it denotes)."""
     forms = ["id", "node"]
     t = (tags or {}).get(i)
     if t is not None:
         forms.append("tag")
+    if env is not None and "<<" not in ids[i] and "." not in ids[i]:
+        forms.append("fn")  # the decorated function itself: it denotes its FIRST usage in the DAG
     form = form or rng.choice(forms)
+    if form == "fn":
+        return env["c%d" % i], resolve_alias(ids[i], ids, tags, by_node=True)
     if form == "node":
         return d.get_node_by_id(ids[i]), resolve_alias(ids[i], ids, tags, by_node=True)
     if form == "tag":
@@ -265,7 +269,7 @@ def run_shape(col, pid, rng, n, edges, exhaustive, limit, with_setup=False, with
     for (R, X, T) in trs:
         if d is None or (setup and rng.random() < 0.5):
             # (half of the time the previous object is kept: its setup results are "already computed" for the next selection)
-            d, _e, _p = S.build_tawazi(spec, plain=plain)
+            d, env_d, _p = S.build_tawazi(spec, plain=plain)
             env_values = {}
         kw = {}
         denoted_ok = True
@@ -274,7 +278,7 @@ def run_shape(col, pid, rng, n, edges, exhaustive, limit, with_setup=False, with
                 continue
             al = []
             for i in sites:
-                a, den = alias_of(rng, d, spec, ids, i, tags)
+                a, den = alias_of(rng, d, spec, ids, i, tags, env=env_d)
                 al.append(a)
                 if den != {i}:
                     denoted_ok = False  # the alias denotes other / more call sites: recompute the triple it really means
